@@ -48,6 +48,7 @@ type Config struct {
 	ExpectPanics []string          // regexps; matching target panics are not violations
 	MapOrders    bool              // explore all iteration orders of maps with <= 3 entries
 	ConcretizeDivisors bool        // fork on the feasible values of symbolic divisors
+	ConcretizeResults []string     // function-name suffixes whose (integer) result is case-split on its feasible values
 	Params       map[string]int
 	Lim          Limits
 	Trace        bool
@@ -77,6 +78,7 @@ type interpreter struct {
 }
 
 type fnAction struct {
+	concResult bool
 	intrinsic func(fr *frame, args []value) value
 	replace   *ssa.Function
 	noop      bool
@@ -529,6 +531,15 @@ func callSSA(i *interpreter, caller *frame, callpos token.Pos, fn *ssa.Function,
 			case act.intrinsic != nil:
 				fr.cur = nil
 				return act.intrinsic(fr, args)
+			case act.concResult:
+				i.actions[fn] = nil
+				r := callSSA(i, caller, callpos, fn, args, env)
+				i.actions[fn] = act
+				if tm, ok := r.(*Term); ok {
+					v := i.pc.concretize(tm, 70, "result of "+fn.String())
+					return lower(fn.Signature.Results().At(0).Type(), i.pc.constLike(tm, v))
+				}
+				return r
 			}
 		}
 		if fn.Blocks == nil {
